@@ -17,7 +17,7 @@ theorem cov_append (a b : List Row) (p : Int) : cov (a ++ b) p ↔ cov a p ∨ c
     · exact ⟨r, Or.inl hr, h⟩
     · exact ⟨r, Or.inr hr, h⟩
 
-theorem cov_flatMap {α} (l : List α) (f : α → List Row) (p : Int) :
+theorem cov_flatMap_sub {α} (l : List α) (f : α → List Row) (p : Int) :
     cov (l.flatMap f) p ↔ ∃ a ∈ l, cov (f a) p := by
   simp only [cov, List.mem_flatMap]
   constructor
@@ -111,7 +111,7 @@ theorem splitInto_within (r : Row) (n : Nat) (hn : 1 ≤ n) (hlen : 0 ≤ r.e - 
     omega
 
 /-- Python's `round` of a non-negative number is non-negative -/
-theorem roundHalfEven_nonneg (q : Rat) (hq : 0 ≤ q) : 0 ≤ roundHalfEven q := by
+theorem roundHalfEven_nonneg_sub (q : Rat) (hq : 0 ≤ q) : 0 ≤ roundHalfEven q := by
   have hf : 0 ≤ q.floor := (Int.floor_nonneg (a := q)).mpr hq
   unfold roundHalfEven
   simp only
@@ -132,7 +132,7 @@ theorem splitRow_cases (avg : Rat) (havg : 0 < avg) (minSize : Int) (r : Row) (h
     refine ⟨hmin, ?_⟩
     have hq : 0 ≤ ((r.e - r.s : Int) : Rat) / avg :=
       div_nonneg (by exact_mod_cast hlen) (le_of_lt havg)
-    have hnn := roundHalfEven_nonneg _ hq
+    have hnn := roundHalfEven_nonneg_sub _ hq
     unfold splitRow
     simp only
     rw [if_pos (by omega)]
@@ -167,7 +167,7 @@ theorem splitRow_cov (avg : Rat) (havg : 0 < avg) (minSize : Int) (r : Row) (hle
     · intro h; exact ⟨hge, h⟩
     · intro h; exact h.2
 
-theorem splitRow_within (avg : Rat) (havg : 0 < avg) (minSize : Int) (r : Row) (hlen : 0 ≤ r.e - r.s) :
+theorem splitRow_within_region (avg : Rat) (havg : 0 < avg) (minSize : Int) (r : Row) (hlen : 0 ≤ r.e - r.s) :
     ∀ b ∈ splitRow avg minSize r, b.chrom = r.chrom ∧ b.gene = r.gene ∧ r.s ≤ b.s ∧ b.s ≤ b.e ∧ b.e ≤ r.e := by
   rcases splitRow_cases avg havg minSize r hlen with ⟨h, _⟩ | ⟨_, h | ⟨n, hn, _, h⟩⟩
   · rw [h]; intro b hb; simp at hb
@@ -234,7 +234,7 @@ theorem subdivideTable_cov (avg : Rat) (havg : 0 < avg) (minSize : Int) (t : Tab
     (hp : ∀ r ∈ t, r.s < r.e) (c : String) (p : Int) :
     cov (rowsOf (subdivideTable avg minSize t) c) p ↔
       ∃ m ∈ rowsOf (mergeTable 0 t) c, minSize ≤ m.e - m.s ∧ m.s ≤ p ∧ p < m.e := by
-  rw [rowsOf_subdivideTable, cov_flatMap]
+  rw [rowsOf_subdivideTable, cov_flatMap_sub]
   have hcan := mergeTable_canon t hp c
   constructor
   · rintro ⟨m, hm, h⟩
@@ -269,12 +269,12 @@ theorem subdivideTable_disjoint (avg : Rat) (havg : 0 < avg) (minSize : Int) (t 
     refine ⟨fun m hm => splitRow_disjoint avg havg minSize m (hlen m hm), ?_⟩
     refine List.Pairwise.imp_of_mem ?_ hcan.2
     intro m1 m2 h1 h2 h12 x hx y hy
-    have hx' := splitRow_within avg havg minSize m1 (hlen m1 h1) x hx
-    have hy' := splitRow_within avg havg minSize m2 (hlen m2 h2) y hy
+    have hx' := splitRow_within_region avg havg minSize m1 (hlen m1 h1) x hx
+    have hy' := splitRow_within_region avg havg minSize m2 (hlen m2 h2) y hy
     omega
   · intro b hb
     obtain ⟨m, hm, hbm⟩ := List.mem_flatMap.mp hb
-    have hw := splitRow_within avg havg minSize m (hlen m hm) b hbm
+    have hw := splitRow_within_region avg havg minSize m (hlen m hm) b hbm
     refine ⟨m, hm, ?_, hw.2.1, hw.2.2.1, hw.2.2.2.1, hw.2.2.2.2⟩
     by_contra hlt
     rw [splitRow_small avg minSize m (by omega)] at hbm
